@@ -752,6 +752,13 @@ func sameCase(a, b *Event) bool {
 // given polarity (the guard dominates the assignment, not the merged use).
 func directionEdgeGuard(x hev, val string, wantEquals bool) bool {
 	w := x.w
+	// the deputy comparison is a fact of the chain itself (the direction is the type of a
+	// route object chosen under it, or a plan value worked out from it)
+	for _, ft := range w.FactsAt(x.ev.Fr, x.ev.Site) {
+		if ft.Holds == wantEquals && strings.Contains(ft.Text, "sdk.AccAddress.Equals(addr(msg.Sender), addr(") && strings.Contains(ft.Text, ".DeputyAddress") && !strings.Contains(ft.Text, " : ") {
+			return true
+		}
+	}
 	// walk up the frames: find a dominating comparison φ == val
 	cur := ssa.Instruction(x.ev.Site)
 	for f := x.ev.Fr; f != nil; f = f.Parent {
